@@ -277,6 +277,8 @@ const ALPHABET: &[&str] = &[
     // an escaped punctuation character, then characters that could be hex digits, then an escaped
     // space, all in one name
     ".a\\:bd\\ c", "#i\\.e1\\ j",
+    // an escaped character that is not ASCII
+    ".a\\éd", "#\\😀j", ".\\文 d",
     // no leading class / id: per-site route
     "div.c", "[c]", "*", "div", "c", "i", "[c=\".c\"]", "div#i", ":not(.c)", "*.c", "div > .c",
 ];
